@@ -35,6 +35,8 @@ pub enum Alphabet {
     InternGc,
     /// tracked map
     Tracked,
+    /// three-level chain whose middle collapses values (backdating), one key
+    Backdate,
 }
 
 pub fn alphabet(a: Alphabet) -> Vec<Op> {
@@ -81,6 +83,10 @@ pub fn alphabet(a: Alphabet) -> Vec<Op> {
             ops.extend([Op::Set(0, 0), Op::Set(0, 1), Op::Set(0, 2), Op::Set(1, 0), Op::Set(1, 1)]);
             ops.extend(calls(&[(Leaf, &[0]), (Interned, &[0, 1]), (Tuple, &[0]), (Second, &[0, 1]), (Outer, &[0, 1]), (DepParity, &[0])]));
             ops.extend([Op::Retain(Node(Outer, 0)), Op::Retain(Node(Second, 1)), Op::ClearRetain(0), Op::NeverGc(0), Op::Gc]);
+        }
+        Alphabet::Backdate => {
+            ops.extend([Op::Set(0, 0), Op::Set(0, 1), Op::Set(0, 2), Op::SetSingle(1)]);
+            ops.extend(calls(&[(Leaf, &[0]), (Parity, &[0]), (DepParity, &[0]), (SingPlus, &[0])]));
         }
         Alphabet::Tracked => {
             ops.extend([Op::Set(0, 0), Op::Set(0, 1), Op::Set(1, 1), Op::Set(1, 2), Op::Remove(0), Op::Remove(1)]);
@@ -281,6 +287,9 @@ impl Run {
             }
         }
         let trace = take_trace();
+        if std::env::var("PICO_MC_TRACE").is_ok() {
+            eprintln!("step {} {:?}: {:?}", self.steps, n, trace);
+        }
         self.executions_seen += trace.iter().filter(|e| matches!(e, Ev::Enter(_))).count();
         let expected = self.model.plain.eval(n);
         for e in &trace {
